@@ -486,7 +486,13 @@ def check(name, goal, kind="ensures", note="", extra=(), fallback_extra=None):
         goal = z3.BoolVal(goal)
     elif isinstance(goal, (list, tuple)):
         goal = z3.And(*[g.e if isinstance(g, SB) else (z3.BoolVal(g) if isinstance(g, bool) else g) for g in goal])
-    st, model, be, secs, smt2 = prove(c.hyps() + list(extra), goal)
+    if z3.is_true(goal) or z3.is_true(z3.simplify(goal)):
+        st, model, be, secs, smt2 = "proved", None, "simplify", 0.0, None
+    elif z3.is_false(goal):
+        # a constant-false goal is a violation only if the path is feasible: ask for a model of the path condition
+        st, model, be, secs, smt2 = prove(c.hyps() + list(extra), goal) if (c.pc or c.ax) else ("failed", {}, "const", 0.0, None)
+    else:
+        st, model, be, secs, smt2 = prove(c.hyps() + list(extra), goal)
     if st != "proved" and fallback_extra:
         fb = fallback_extra() if callable(fallback_extra) else list(fallback_extra)
         st2, model2, be2, secs2, smt22 = prove(c.hyps() + list(extra) + fb, goal)
@@ -788,6 +794,9 @@ def _rv(x):
     raise TypeError(x)
 
 
+_POW = z3.Function("Pow", z3.RealSort(), z3.RealSort(), z3.RealSort())
+
+
 class SR:
     """symbolic real (floats as mathematical reals, A1)"""
     __slots__ = ("e", "sq_of")
@@ -890,7 +899,12 @@ class SR:
             k = int(n * 2)
             s = real_sqrt(self)
             return s ** k
+        if isinstance(n, (SR, float)):
+            return SR(_POW(self.e, SR.lift(n).e))          # uninterpreted power (A3)
         raise Unsupported(f"real power {n!r}")
+
+    def __rpow__(self, base):
+        return SR(_POW(SR.lift(base).e, self.e))
 
     def _cmp(self, o, f):
         if isinstance(o, float) and o in (float("inf"), float("-inf")):
